@@ -172,6 +172,12 @@ Definition l_alloc (s : lstate) (v n : N) (k : nat) : lstate * (N * N) :=
         l_pnext := l_pnext s;
         l_present := l_present s; l_pending := l_pending s; l_lost := l_lost s; l_up := true |}, (b, e)).
 
+(* labels are uint64: newLabel / newLabels refuse a request that does not fit below 2^64
+   (labelmap.go: "numLabels > ^uint64(0)-d.MaxRepoLabel"; only on the max-label path, the
+   administrator's NextLabel path has no such guard) *)
+Definition max_label : N := 18446744073709551615.
+Definition alloc_refused (s : lstate) (n : N) : bool := (l_next s =? 0) && (max_label - l_maxrepo s <? n).
+
 Definition add_present (s : lstate) (ls : list N) : lstate :=
   {| l_maxv := l_maxv s; l_maxrepo := l_maxrepo s; l_next := l_next s; l_pmaxv := l_pmaxv s;
      l_pmaxrepo := l_pmaxrepo s; l_pnext := l_pnext s; l_present := ls ++ l_present s;
@@ -199,10 +205,11 @@ Definition lstep (s : lstate) (e : levent) : lstate * option (N * N) :=
   match e with
   | LAlloc v n =>
     if n =? 0 then (s, None) else
+    if alloc_refused s n then (s, None) else            (* error returned, nothing changed *)
     let '(s1, (b, e)) := l_alloc s v n 2 in
     (add_present s1 (seqN b (N.to_nat n)), Some (b, e))
   | LAllocCrash v n k =>
-    if n =? 0 then (l_down s, None) else (l_down (fst (l_alloc s v n k)), None)
+    if (n =? 0) || alloc_refused s n then (l_down s, None) else (l_down (fst (l_alloc s v n k)), None)
   | LIngest v bms =>
     (set_pending (add_present s bms) (l_pending s ++ map (fun bm => (v, bm, None)) bms), None)
   | LBgRead i =>
